@@ -13,6 +13,7 @@ MODULES = {
     "C12": ("checks.alloc", "C12"),
     "C14": ("checks.deps", "C14"),
     "C13": ("checks.prims", "C13"),
+    "C16": ("checks.vect", "C16"),
     "C01": ("checks.wrun", "C01"),
     "C03": ("checks.wrun", "C03"),
     "C05": ("checks.wrun", "C05"),
